@@ -27,6 +27,8 @@ import Csproto.Bridge.Shim
 #print axioms Csproto.Bridge.jsonProbes_ok
 #print axioms Csproto.Bridge.jsonWiring_ok
 #print axioms Csproto.Bridge.jsonSetters_ok
+#print axioms Csproto.Bridge.jsonOptionWrites_ok
+#print axioms Csproto.Bridge.no_cached_size_requests
 #print axioms Csproto.Bridge.grpcCodec_ok
 #print axioms Csproto.Bridge.resetProbes_ok
 #print axioms Csproto.Bridge.marshalTextProbes_ok
